@@ -11,20 +11,32 @@ SPEC = {
              "template-looking strings, int64 as number (|v| <= 2^53) or as string (full range), camelCase or snake_case keys, unknown "
              "fields, ill-typed values, unknown methods; metadata maps (printable values; one key in three - the entry marker too - written the HTTP way: Capitalised-Per-Word, "
              "UPPER-CASE or mixed case, which gRPC carries in lower case; no two keys of an entry differ in case only); handlers that stall beyond "
-             "the timeout; timeout 150 ms - 1 s; shared-client on/off; 1-4 instances; one file in six is 150-400 entries long (beyond the provider's read-ahead, so its ammo objects "
+             "the timeout; timeout 150 ms - 1 s; shared-client on/off with client-number not written (default 1), 1, 2 or 3; 1-4 instances; in two cases out of five "
+             "reflect_port is set to the port of a second listener that serves ONLY the reflection service (describing the target's services; any other call "
+             "arriving there is recorded and answered Unimplemented) while the service itself is on the target port - combined with every other option; one file in six is 150-400 entries long (beyond the provider's read-ahead, so its ammo objects "
              "get recycled); pool built by config.DecodeAndValidate, real grpc "
              "gun (reflection + dynamic messages), real phout. Non-trivial = metadata beyond the entry marker, or an invalid entry mixed "
              "with valid ones, or >= 2 instances; distinct = hash of the case. "
              "TestGRPCScenario: generated grpc/scenario descriptions (YAML): a csv users source handed out by a prepare preprocessor "
              "(source.users[next]), a variables source, a leading Auth call and 1-3 List/Order calls with multiplicities 1-3; payload "
              "templates from the Auth response of the same invocation (token, userId) and from sources; 0-4 metadata entries per call "
-             "whose values are literals or templates over the source, the row of this invocation or the captured token / userId; two descriptions in three hold 1-2 further scenarios (weights 1-3) that refer to the SAME call definitions "
+             "whose values are literals or templates over the source, the row of this invocation or the captured token / userId, an action inside literal text "
+             "(Bearer {{token}}), a built-in function of Go templates (printf over a source value and the row) or one of the documented randomization functions "
+             "(uuid, randInt 100 200, randString 6); one call in three has a FIXED payload without any template action ({} or a constant body; Hello, List or Order), so "
+             "that only its metadata values need rendering; in one description out of four reflect_port points at the reflection-only listener; two descriptions in three hold 1-2 further scenarios (weights 1-3) that refer to the SAME call definitions "
              "(auth and 1-4 references to the List/Order calls, in an order and with multiplicities of their own), so that one instance "
              "shoots the scenarios in mixed order; every scenario then lists a marker call of its own (Hello, name = this invocation's "
              "token) right after auth, by which the server's log tells the scenario of an invocation; 1-10 "
              "invocations by 1-4 instances, gun timeout 0.4 / 1 / 3 s (every call must arrive with a deadline no later than it). The recording server issues a unique token and user id per Auth call; calls are grouped "
              "into invocations by that token. Non-trivial = a metadata value that differs per invocation and >= 2 invocations."),
-    "floors": {"TestGRPCScenario/metadata_per_invocation_value": 0.4, "TestGRPCScenario/metadata_from_earlier_response": 0.25,
+    "floors": {"TestGRPCJSON/reflect_port": 0.27, "TestGRPCJSON/reflect_port_client_per_instance": 0.12,
+               "TestGRPCJSON/reflect_port_shared_client_all_clients_used": 0.1, "TestGRPCJSON/shared_client_default_client_number": 0.07,
+               "TestGRPCJSON/shared_clients_ge_2_all_used": 0.085,
+               "TestGRPCScenario/fixed_payload_templated_metadata": 0.25,
+               "TestGRPCScenario/fixed_payload_per_invocation_metadata_ge_2_invocations": 0.18,
+               "TestGRPCScenario/metadata_with_template_function": 0.4, "TestGRPCScenario/metadata_with_random_function": 0.33,
+               "TestGRPCScenario/reflect_port": 0.14,
+               "TestGRPCScenario/metadata_per_invocation_value": 0.4, "TestGRPCScenario/metadata_from_earlier_response": 0.25,
                "TestGRPCScenario/per_invocation_metadata_with_concurrent_instances": 0.2, "TestGRPCScenario/multiplicity_gt_1": 0.4,
                "TestGRPCScenario/rows_wrap_around": 0.3, "TestGRPCScenario/several_scenarios": 0.39,
                "TestGRPCScenario/several_scenarios_shot": 0.28, "TestGRPCScenario/scenarios_in_mixed_order": 0.2,
@@ -39,11 +51,15 @@ SPEC = {
         "text": ("Per valid entry the recording server must have received exactly one call of the named method whose message is "
                  "proto.Equal to protojson.Unmarshal(payload) into the generated type, with every metadata pair, carrying a deadline "
                  "<= the configured timeout; a stalled handler ends as a 504 sample by the timeout; invalid entries reach the server "
-                 "never, yield one non-200 sample and do not disturb the others. Scenario calls: every call of every "
+                 "never, yield one non-200 sample and do not disturb the others. With reflect_port set the reflection-only listener must have served a "
+                 "reflection stream and must have received no other call (every call goes to the target port, whichever shared client or instance sends it). Scenario calls: every call of every "
                  "invocation reaches the server with the method, the payload (token and user id captured from this invocation's Auth "
                  "response, source values) and every metadata pair rendered for THIS invocation (reference rendering from what the "
                  "server issued and the rows the harness wrote), the number of times the invocation's scenario lists it; users[next] hands out rows round-robin (asserted for "
-                 "single-scenario descriptions); one sample per call tagged <scenario>.<call tag>. Metadata keys are looked up "
+                 "single-scenario descriptions); a call with a fixed payload arrives with exactly that message, and the metadata of its arrivals - "
+                 "compared as a multiset of value tuples, since nothing in its message tells the invocation - equals the renderings for the invocations whose scenario "
+                 "lists it, times its multiplicity; values of the randomization functions must have the documented form (uuid v4, a number "
+                 "between the bounds, a string of the given length) and never the template text; one sample per call tagged <scenario>.<call tag>. Metadata keys are looked up "
                  "case-insensitively at the server (gRPC sends them in lower case)."),
         "note": ("JSON numbers above 2^53 are only generated as strings (the ammo is decoded through float64 by design of JSON maps). "
                  "Entries are matched to server calls by an x-entry metadata marker."),
